@@ -10,6 +10,8 @@ when there is none -- per leaf the projected type (name, kind, units, default/ha
 range/length text, pattern list, enum and bit members with their values, path, identityref base, union members
 recursively) and DefaultValues().  A third, independent reading of the property text (the generator's own
 binder) fixes the INTENT of every case (error / no error); the model has to agree with that as well.
+Family "history": a schema is also run with one imported module arriving after a first, failing Process; the
+second Process must give what the (stateless) model gives for the complete schema.
 Family "pinned revision": several revisions of a library module loaded together, imports with / without
 revision-date, all / many load orders; the implementation's leaf types are compared with expectations fixed by
 construction (an oracle on the implementation alone), and with the revision-aware model."""
@@ -380,6 +382,11 @@ class Gen:
                     pf = rnd.choice(PREFIXES)
                     if pf == m.prefix and rnd.random() < 0.8:
                         pf = rnd.choice(PREFIXES)
+                    if m.sub and rnd.random() < 0.3:
+                        # the prefix the owning module declares for ITSELF names an import here
+                        own = [x.prefix for x in mains if x.name == m.belongs]
+                        if own and own[0] != m.prefix and all(p_ != own[0] for p_, _ in m.imports):
+                            pf = own[0]
                     m.imports.append((pf, o.name))
         rnd.shuffle(mods)                               # load order is arbitrary
         for m in mods:
@@ -624,6 +631,30 @@ class Gen:
             return put(TRef(f))
         if kind == "unknown-prefix":
             return put(TRef("zz:" + rnd.choice(NAMES)))
+        if kind == "parent-prefix":
+            # in a submodule: a prefix that only the module it belongs to (or a sibling submodule) declares --
+            # the parent's own prefix where the belongs-to prefix differs, or one of their imports
+            cs = []
+            for sc_, h in sites:
+                m = sc_.mod
+                if not m.sub:
+                    continue
+                mine = {m.prefix} | {p_ for p_, _ in m.imports}
+                family = [x for x in S.mods if x is not m and (x.name == m.belongs and not x.sub or
+                                                               x.sub and x.belongs == m.belongs)]
+                for x in family:
+                    declared = [p_ for p_, _ in x.imports] + ([x.prefix] if not x.sub else [])
+                    for pf in declared:
+                        if pf in mine:
+                            continue
+                        for n in NAMES + SHADOW:
+                            b = S.bind(x.top, pf + ":" + n)
+                            if b and b[0] == "td" and S.bind(sc_, pf + ":" + n) is None:
+                                cs.append((sc_, h, pf + ":" + n))
+            if not cs:
+                return False
+            sc, holder, f = rnd.choice(cs)
+            return put(TRef(f))
         if kind == "invisible":
             # a name that is declared somewhere in the schema but that this form does not reach from here
             declared = sorted({td.name for s in S.scopes() for td in s.typedefs if td.name not in BUILTINS})
@@ -697,16 +728,41 @@ class Gen:
 
 
 FAULTS = ["unknown-name", "unknown-prefix", "invisible", "cycle", "fd-override", "fd-missing", "fd-range",
-          "fd-other", "dup-enum", "idref-nobase", "range-widen", "range-bad"]
+          "fd-other", "dup-enum", "idref-nobase", "range-widen", "range-bad", "parent-prefix"]
 
 BAD_TEXT = ("bad.yang", "module bad { prefix b; typedef t0 { type nosuch; } leaf x { type t0; } }\n")
 
 
-def lines_of(S, extra_bad=False):
+def late_module(S, rnd):
+    """index of a module that others import (preferably one a typedef is based on through a prefix), or None"""
+    imported = {n for m in S.mods for _, n in m.imports}
+    best, other = [], []
+    for i, m in enumerate(S.mods):
+        if m.sub or m.name not in imported:
+            continue
+        other.append(i)
+        for sc in S.scopes():
+            if sc.mod is m or sc.mod.belongs == m.name:
+                continue
+            for td in sc.typedefs:
+                for r in td.type.refs():
+                    if ":" in r.name and r.target is not None and \
+                            (r.target.scope.mod is m or r.target.scope.mod.belongs == m.name):
+                        best.append(i)
+    if best:
+        return rnd.choice(best)
+    return rnd.choice(other) if other else None
+
+
+def lines_of(S, extra_bad=False, late=None):
     texts = [(m.name + ("@" + m.rev if m.rev else "") + ".yang", render_module(m)) for m in S.mods]
     if extra_bad:
         texts.insert(len(texts) // 2, BAD_TEXT)
-    ops = ",".join("L%d" % i for i in range(len(texts))) + ",P"
+    if late is not None:
+        # history on one Modules value: everything but one imported module, Process (fails), that module, Process
+        ops = ",".join("L%d" % i for i in range(len(texts)) if i != late) + ",P,L%d,P" % late
+    else:
+        ops = ",".join("L%d" % i for i in range(len(texts))) + ",P"
     go = "process - %s %d %s" % (ops, len(texts), " ".join("%s %s" % (hx(n), hx(t)) for n, t in texts))
     ml = "c09 " + " ".join(S.toks())
     return go, ml, texts
@@ -935,6 +991,62 @@ def corpus():
     td(m1.top, "up", ref("enumeration", enums=["other"]))
     lf(m1.top, "imported", ref("union", members=[ref("x:up"), ref("up"), ref("x:down"), ref("x:ud")]))
     out.append(("union-of-small-enums", False, Schema([m0, m1])))
+    # prefixes are per text: a submodule knows its belongs-to prefix and its OWN imports, nothing else
+    def family():
+        main = mod("main", "m")
+        main.includes = ["sub", "sib"]
+        main.imports = [("o", "other")]
+        td(main.top, "size", ref("int8"), units="main")
+        sub = mod("sub", "self", True, "main")
+        sub.imports = [("m", "other")]          # the module's own prefix names an import here
+        sib = mod("sib", "self", True, "main")
+        sib.imports = [("k", "third")]
+        other = mod("other", "x")
+        td(other.top, "size", ref("uint32"), units="other")
+        third = mod("third", "t")
+        td(third.top, "size", ref("boolean"), units="third")
+        return main, sub, sib, other, third
+    main, sub, sib, other, third = family()
+    g = kid(sub.top, "grouping", "g1")
+    lf(g, "l1", ref("m:size"))                  # other's, not main's
+    lf(g, "l2", ref("self:size"))               # main's
+    lf(g, "l3", ref("size"))
+    td(g, "gt", ref("m:size"), default="1")
+    lf(g, "l4", ref("gt"))
+    lf(sub.top, "l5", ref("union", members=[ref("m:size"), ref("self:size")]))
+    out.append(("submodule-prefix-table", False, Schema([sub, main, other, sib, third])))
+    for nm, bad in (("parent-import", "o:size"), ("sibling-import", "k:size")):
+        main, sub, sib, other, third = family()
+        lf(sub.top, "l1", ref(bad))             # declared by the parent / a sibling only: unknown prefix
+        out.append(("submodule-" + nm + "-prefix", True, Schema([sub, main, other, sib, third])))
+    main, sub, sib, other, third = family()
+    sub.imports = []
+    td(sub.top, "u", ref("m:size"))             # the parent's own prefix, the belongs-to prefix differs
+    out.append(("submodule-parent-own-prefix", True, Schema([sub, main, other, sib, third])))
+    # own-prefixed names are looked up in the enclosing scopes like unprefixed ones; top-level decoys
+    m0 = mod("m0", "d")
+    td(m0.top, "percent", ref("string"), units="decoy")
+    g = kid(m0.top, "grouping", "g1")
+    td(g, "percent", ref("uint8", range="0..100"), units="g1")
+    lf(g, "l1", ref("d:percent"))
+    g2 = kid(g, "grouping", "g2")
+    td(g2, "inner", ref("d:percent"), default="7")
+    lf(g2, "l2", ref("d:inner"))
+    c = kid(g2, "container", "c1")
+    td(c, "percent", ref("int16"), units="c1")
+    lf(c, "l3", ref("d:percent"))
+    lf(c, "l4", ref("union", members=[ref("d:inner"), ref("d:percent")]))
+    r = kid(m0.top, "rpc", "r1")
+    i = kid(r, "input", "in1")
+    td(i, "only", ref("int64"))
+    lf(i, "l5", ref("d:only"))                  # no top-level typedef of that name at all
+    s0 = mod("s0", "me", True, "m0")
+    m0.includes = ["s0"]
+    n = kid(s0.top, "notification", "n1")
+    td(n, "percent", ref("uint64"), units="n1")
+    lf(n, "l6", ref("me:percent"))              # belongs-to prefix in a submodule
+    lf(s0.top, "l7", ref("me:percent"))         # top level of the whole module: m0's
+    out.append(("own-prefix-scoped", False, Schema([m0, s0])))
     # a later typedef of the same name in the same scope replaces the earlier one in the dictionary
     m0 = mod("m0", "p")
     td(m0.top, "t0", ref("nosuch"))
@@ -1192,7 +1304,7 @@ def compare(goline, mlline, intent, nbad=0):
         m = json.loads(mlline)
     except ValueError:
         return "unparsable output: impl=%s model=%s" % (goline[:200], mlline[:200]), "broken"
-    run = g["runs"][0]
+    run = g["runs"][-1]         # histories: the last Process is the one that counts
     loads = g["loads"]
     if sum(1 for x in loads if x.startswith("err")) != nbad or len(loads) == 0:
         return "a generated text was rejected by Parse: %s %s" % (loads, run["errors"][:2]), "broken"
@@ -1284,6 +1396,7 @@ def build_cases(tier, seed):
         go, ml, texts = lines_of(S)
         cases.append(("corpus:" + name, intent, go, ml, texts, 0, None))
     n_ok, n_fault = (260, 26) if tier == "quick" else (6000, 400)
+    n_hist = 150 if tier == "quick" else 2000
     for i in range(n_ok):
         g = Gen(rnd, big=(i % 10 == 9))
         S, _ = g.case()
@@ -1291,6 +1404,12 @@ def build_cases(tier, seed):
         bad = rnd.random() < 0.1
         go, ml, texts = lines_of(S, extra_bad=bad)
         cases.append(("random", False, go, ml, texts, 1 if bad else 0, None))
+        if i < n_hist:
+            late = late_module(S, rnd)
+            if late is not None:
+                go2, ml2, texts2 = lines_of(S, late=late)
+                cases.append(("history:late-import", False, go2, ml2, texts2, 0, None))
+                hist["history:late-import"] = hist.get("history:late-import", 0) + 1
     for f in FAULTS:
         made = 0
         tries = 0
